@@ -920,6 +920,63 @@ def m_checked_sub(I, st, call):
     return out
 
 
+@model("core::num::<impl usize>::leading_zeros", "core::num::<impl u64>::leading_zeros", "core::num::<impl u32>::leading_zeros",
+       "core::num::<impl u16>::leading_zeros", "core::num::<impl u8>::leading_zeros")
+def m_leading_zeros(I, st, call):
+    """lz(x) = w for x == 0; otherwise 2^(w-1-lz) <= x < 2^(w-lz)"""
+    x = call.args[0]
+    if not isinstance(x, IntV) or x.ty is None or x.ty[1]:
+        return None
+    w = x.ty[0]
+    u32 = (32, False)
+    out = []
+    s0 = st.copy()
+    s0.add_eq(x.aff, Aff.const(0))
+    if not s0.dead:
+        out.append((s0, IntV(Aff.const(w), u32)))
+    st.add_fact(x.aff - 1)
+    if st.dead:
+        return out
+    lo, hi = st.range(x.aff)
+    lzl = w - hi.bit_length() if hi < (1 << w) else 0
+    lzh = w - max(lo, 1).bit_length()
+    lz = I.fresh_int(st, "lz", u32, max(lzl, 0), min(lzh, w - 1))
+    if lz.aff.is_const() or st.range(lz.aff)[0] == st.range(lz.aff)[1]:
+        k = w - 1 - st.range(lz.aff)[0]
+        st.add_fact(x.aff - (1 << k))
+        st.add_fact(Aff.const((1 << (k + 1)) - 1) - x.aff)
+        out.append((st, IntV(Aff.const(st.range(lz.aff)[0]), u32)))
+        return out
+    # the power of two below x, named as the shift the caller is likely to form from the result
+    sh = Aff.const(w - 1) - lz.aff
+    p_ = I.pure_int(st, ("shl", 1, sh, x.ty), "shl", x.ty, 1, 1 << (w - 1))
+    p_.origin = ("shl", 1, sh)
+    st.add_fact(x.aff - p_.aff)
+    if w < 64 or True:
+        st.add_fact(p_.aff.scale(2) - x.aff - 1)
+    out.append((st, lz))
+    return out
+
+
+@model("core::num::<impl usize>::saturating_mul", "core::num::<impl u32>::saturating_mul", "core::num::<impl u64>::saturating_mul",
+       "core::num::<impl u16>::saturating_mul")
+def m_saturating_mul(I, st, call):
+    a, b = call.args
+    if not (isinstance(a, IntV) and isinstance(b, IntV)) or a.ty is None:
+        return None
+    lo, hi = int_range(a.ty)
+    tyd = ("int", a.ty[0], a.ty[1])
+    prod = I.binop(call.ctx, st, "MulUnchecked", a, b, tyd, call.site)
+    c = ("ovf", prod.aff, lo, hi)
+    out = []
+    s2 = st.copy()
+    for s in assume(st, c, False):
+        out.append((s, IntV(prod.aff, a.ty)))
+    for s in assume(s2, c, True):
+        out.append((s, IntV(Aff.const(hi), a.ty)))
+    return out
+
+
 @model("core::num::<impl usize>::checked_div", "core::num::<impl u16>::checked_div",
        "core::num::<impl u32>::checked_div", "core::num::<impl u64>::checked_div", "core::num::<impl u8>::checked_div")
 def m_checked_div(I, st, call):
